@@ -106,6 +106,20 @@ def _constraint_overflow(
 
 
 @wp.kernel
+def _zero_sparse_rows(
+  # Data out:
+  efc_J_rownnz_out: wp.array2d[int],
+  efc_J_rowadr_out: wp.array2d[int],
+):
+  worldid, efcid = wp.tid()
+
+  # a row that is dropped for lack of njmax_nnz never writes its rowadr (contact rows: nor its rownnz):
+  # start from empty rows so that no reader or writer follows stale addresses of an earlier call
+  efc_J_rownnz_out[worldid, efcid] = 0
+  efc_J_rowadr_out[worldid, efcid] = 0
+
+
+@wp.kernel
 def _njmax_nnz_empty_dropped_rows(
   # Data in:
   nefc_in: wp.array[int],
@@ -4953,6 +4967,9 @@ def make_constraint(m: types.Model, d: types.Data):
     dim=d.nworld,
     inputs=[d.ne, d.nf, d.nl, d.nefc, d.efc.jtdaj_nblock, efc_nnz],
   )
+
+  if m.is_sparse:
+    wp.launch(_zero_sparse_rows, dim=(d.nworld, d.njmax), outputs=[d.efc.J_rownnz, d.efc.J_rowadr])
 
   if not (m.opt.disableflags & types.DisableBit.CONSTRAINT):
     if not (m.opt.disableflags & types.DisableBit.EQUALITY):
